@@ -234,6 +234,7 @@ fn builtin_str(args: Vec<Rc<Object>>) -> Result<Rc<Object>, String> {
         Object::Str(_) => Ok(Rc::clone(&args[0])),
         Object::Null
         | Object::Integer(_)
+        | Object::Float(_)
         | Object::Bool(_)
         | Object::Arr(_)
         | Object::Err(_)
